@@ -465,6 +465,17 @@ class UTPM(Ring, RawAlgorithmsMixIn):
         return self * rhs
 
     def __rtruediv__(self, rhs):
+        if numpy.isscalar(rhs) or (isinstance(rhs, numpy.ndarray) and rhs.dtype != object):
+            # the constant is a polynomial of degree zero with the broadcast
+            # shape and the promoted dtype of the NumPy result
+            rhs = numpy.asarray(rhs)
+            D,P = self.data.shape[:2]
+            shp = numpy.broadcast(rhs, self.data[0,0]).shape
+            dtype = numpy.promote_types(self.data.dtype, rhs.dtype)
+            tmp = UTPM(numpy.zeros((D,P) + shp, dtype=dtype))
+            tmp.data[0,...] = rhs
+            return tmp/self
+
         tmp = self.zeros_like()
         tmp.data[0,...] = rhs
         return tmp/self
